@@ -645,8 +645,9 @@ class Share(object):
         If key in ._data, return value at key
         Otherwise set value at key to default and return default
         """
-        value = self._data.__dict__.setdefault(key, default)
-        return value
+        if key not in self._data.__dict__:
+            self[key] = default #so that the field name rule applies
+        return self._data.__dict__[key]
 
     def sift(self, fields=None):
         """
